@@ -48,6 +48,7 @@ def plan(tier, seed):
     for version in ('1.0', '1.1'):
         n = len(W.constraints(version))
         specs.append({'kind': 'component', 'version': version})
+        specs.append({'kind': 'cross', 'version': version})
         pairs = [(i, j) for i in range(n) for j in range(n)]
         if version == '1.1' and tier == 'quick':
             plain = [k for k, c in enumerate(W.constraints(version)) if not c[2]]
@@ -169,6 +170,92 @@ def run_component(spec, res):
             res.count('component:overlap:agree_' + ('yes' if ov else 'no'))
     res.sample({'component_route': version, 'constraints': len(cons),
                 'example': [show(cons[1]), 'union', show(cons[5]), sorted(W.denote(cons[1]) | W.denote(cons[5]))]})
+
+
+def run_cross(spec, res):
+    """Wildcards declared in schema documents of different target namespaces (a type of one namespace extended or
+    restricted in another, a group of one namespace used in another): ##other is relative to the declaring document."""
+    import copy
+    xmlschema = env.activate_repo()
+    from xmlschema import XMLSchema10, XMLSchema11
+    version = spec['version']
+    cls = XMLSchema10 if version == '1.0' else XMLSchema11
+    cons = [c for c in W.constraints(version) if not c[2]]
+
+    def catalogue(tns):
+        body = []
+        for i, c in enumerate(cons):
+            a = W.render_attrs(c, tns)
+            body.append(f'<xs:complexType name="e{i}"><xs:sequence><xs:any {a} processContents="skip"/></xs:sequence></xs:complexType>')
+            body.append(f'<xs:attributeGroup name="g{i}"><xs:anyAttribute {a} processContents="skip"/></xs:attributeGroup>')
+        return HEAD.replace(f'targetNamespace="{W.TNS}"', f'targetNamespace="{tns}"') + '\n'.join(body) + TAIL
+    home = cls(catalogue(W.TNS))
+    home.add_schema(catalogue(W.N1), namespace=W.N1, build=True)
+    tnss = (W.TNS, W.N1)
+    wl = {}
+    for tns in tnss:
+        wl['elem', tns] = [home.maps.types['{%s}e%d' % (tns, i)].content[0] for i in range(len(cons))]
+        wl['attr', tns] = [home.maps.attribute_groups['{%s}g%d' % (tns, i)][None] for i in range(len(cons))]
+    for tns in tnss:
+        for route in ('elem', 'attr'):
+            for i, c in enumerate(cons):
+                res.count('cross:membership')
+                lib, ref = lib_set(wl[route, tns][i]), W.denote(c, tns)
+                if lib != ref:
+                    res.violation(mech('membership-' + route, 'cross', version, c, None, lib, ref),
+                                  {'kind': 'cross', 'op': 'membership', 'route': route, 'version': version, 'i': i, 'tns': tns},
+                                  f'{show(c)} declared in {tns}: library admits {sorted(lib)} reference {sorted(ref)}')
+    for t1, t2 in ((W.TNS, W.N1), (W.N1, W.TNS)):
+        for i, j in itertools.product(range(len(cons)), repeat=2):
+            c1, c2 = cons[i], cons[j]
+            if 'other' not in (c1[0], c2[0]):
+                continue    # only ##other depends on the declaring document
+            d1, d2 = W.denote(c1, t1), W.denote(c2, t2)
+            nt = env.h8(('x', version, t1, i, j)) if d1 != d2 and d1 and d2 else None
+            tag = f'[{ns_class(t1)}-document]+[{ns_class(t2)}-document]'
+            for route in ('elem', 'attr'):
+                w1, w2 = wl[route, t1][i], wl[route, t2][j]
+                for op, ref in (('union', d1 | d2), ('intersection', d1 & d2)):
+                    w = copy.copy(w1)
+                    res.case(nt)
+                    res.count(f'cross:{op}:{route}')
+                    try:
+                        getattr(w, op)(w2)
+                    except xmlschema.XMLSchemaException:
+                        res.count(f'cross:{op}:refused')
+                        continue
+                    lib = lib_set(w)
+                    if lib != ref:
+                        if version == '1.0' and not expressible_10_in(ref, t1):
+                            res.count(f'cross:{op}:inexpressible_in_1.0_approximated')
+                            continue
+                        res.violation(mech(op + '-' + route, 'cross', version, c1, c2, lib, ref) + tag,
+                                      {'kind': 'cross', 'op': op, 'route': route, 'version': version, 'i': i, 'j': j, 't1': t1},
+                                      f'{show(c1)} (in {t1}) {op} {show(c2)} (in {t2}): library {sorted(lib)} reference {sorted(ref)}')
+                res.case(nt)
+                res.count(f'cross:restriction:{route}')
+                r = w2.is_restriction(w1)
+                if r and not d2 <= d1:
+                    res.violation(mech('restriction-' + route, 'cross', version, c2, c1, d2, d1) + tag,
+                                  {'kind': 'cross', 'op': 'restriction', 'route': route, 'version': version, 'i': i, 'j': j, 't1': t1},
+                                  f'{show(c2)} (in {t2}) accepted as restriction of {show(c1)} (in {t1}) but admits {sorted(d2 - d1)}')
+                else:
+                    res.count('cross:restriction:' + ('agree' if r == (d2 <= d1) else 'over_strict'))
+            res.case(nt)
+            res.count('cross:overlap')
+            ov = wl['elem', t1][i].is_overlap(wl['elem', t2][j])
+            if ov != bool(d1 & d2):
+                res.violation(f'overlap/{version}/{c1[0]}+{c2[0]}/lib={ov}{tag}',
+                              {'kind': 'cross', 'op': 'overlap', 'version': version, 'i': i, 'j': j, 't1': t1},
+                              f'is_overlap({show(c1)} in {t1}, {show(c2)} in {t2}) = {ov}, sets intersect: {sorted(d1 & d2)}')
+            else:
+                res.count('cross:overlap:agree_' + ('yes' if ov else 'no'))
+
+
+def expressible_10_in(s, tns):
+    """Can the set be written as one XSD 1.0 wildcard of a document with target namespace tns?"""
+    nss = frozenset(ns for ns, _ in s)
+    return W.FRESH not in nss or nss == frozenset(W.NAMESPACES) or nss == frozenset(W.NAMESPACES) - {'', tns}
 
 
 # ---------------------------------------------------------------------------------------------
@@ -429,13 +516,15 @@ def run_instance_pair(res, xmlschema, cls, version, cons, i, j, XMLSchemaModelEr
 def run_shard(spec, res):
     if spec['kind'] == 'component':
         run_component(spec, res)
+    elif spec['kind'] == 'cross':
+        run_cross(spec, res)
     else:
         run_instance(spec, res)
 
 
 def finalize(res, tier):
     reasons = []
-    for key in ('component:union:attr', 'component:intersection:attr', 'component:overlap',
+    for key in ('component:union:attr', 'component:intersection:attr', 'component:overlap', 'cross:overlap', 'cross:union:attr',
                 'instance:ext-attr-union', 'instance:attrgroup-intersection', 'instance:attr-restriction',
                 'instance:elem-restriction', 'instance:overlap-upa', 'instance:ext-open-union'):
         if not res.counters.get(key):
